@@ -47,6 +47,18 @@ def structural(find_def):
             "import cdd.compound.openapi.utils.emit_utils\n"
             "print(json.dumps({'sqlalchemy-only': a, 'with-openapi-utils': dict(eu.typ2column_type), 'back': dict(pu.column_type2typ)}, default=str))\n")
     out = []
+    # Literal -> Enum: the labels handed to Enum(...) are the Literal's own member nodes (no conversion on the way), so the
+    # parser, which rebuilds the Literal from whatever Enum received, gets the members back with their types
+    import ast
+
+    f = find_def("cdd.sqlalchemy.utils.shared_utils", "update_args_infer_typ_sqlalchemy")
+    ok, why = None, "update_args_infer_typ_sqlalchemy not found"
+    if f is not None:
+        enums = [c for c in ast.walk(f) if isinstance(c, ast.Call) and ast.unparse(c.func) == "Call" and any(k.arg == "func" and "'Enum'" in ast.unparse(k.value) for k in c.keywords)]
+        argsv = [ast.unparse(k.value) for c in enums for k in c.keywords if k.arg == "args"]
+        ok = len(enums) == 1 and argsv in (["val.elts"], ["list(val.elts)"], ["val.elts[:]"])
+        why = "Enum(...) is built with args=val.elts, the member nodes of the Literal" if ok else "Enum(...) is built with args=%s" % argsv
+    out.append(("literal-enum/labels-are-the-literal's-own-members", ok, why))
     try:
         from checks import common
 
